@@ -7,6 +7,7 @@
 -/
 import GojaModel.Base.Proto
 import GojaModel.C20.Model
+import GojaModel.C20.Ref
 namespace GojaModel.C20.Driver
 open GojaModel.Proto GojaModel.C20
 
@@ -167,37 +168,106 @@ def opS (c : Cx) (k : Nat) : String :=
 
 def strUnits (s : String) : List Nat := s.toList.map Char.toNat
 
+/-- results of the generic protocol for replace: global loop or one exec. -/
+def genResults (c : Cx) (k : Nat) : List MatchR × Nat :=
+  if c.fl.global then gloop c (c.units.length + 3) 0
+  else match c.exec k with
+    | (some r, li') => ([r], li')
+    | (none, li') => ([], li')
+
+def callRec (vals : List (Option (List Nat))) (pos : Nat) (names : Option (List String)) : String :=
+  s!"{pos}[{joinWith "," (vals.map hxo)}]" ++ grp (groupsOf vals names)
+
 /-- generic Symbol.replace with a function replacer returning "<position>". -/
 def opF (c : Cx) (k : Nat) : String :=
-  let (results, fin) :=
-    if c.fl.global then gloop c (c.units.length + 3) 0
-    else match c.exec k with
-      | (some r, li') => ([r], li')
-      | (none, li') => ([], li')
+  let (results, fin) := genResults c k
   let n := c.units.length
-  let step := fun (acc : List Nat × Nat) (r : MatchR) =>
-    let (buf, next) := acc
+  let buf := genericReplace c.units (results.map (fun r =>
     let position := min r.start n
-    if position ≥ next then
-      (buf ++ sub c.units next position ++ strUnits s!"<{position}>", position + (r.stop - r.start))
-    else (buf, next)
-  let (buf, next) := results.foldl step ([], 0)
-  let buf := if next < n then buf ++ sub c.units next n else buf
-  let calls := results.map (fun r =>
-    let vals := resultArray c.units r
-    s!"{r.start}[{joinWith "," (vals.map hxo)}]" ++ grp (groupsOf vals r.names))
+    (position, r.stop - r.start, strUnits s!"<{position}>")))
+  let calls := results.map (fun r => callRec (resultArray c.units r) r.start r.names)
   hx buf ++ "|" ++ joinWith ">" calls ++ s!"@{fin}"
+
+def namedLookup (groups : Option (List (String × Option (List Nat)))) (ref : List Nat) : Option (List Nat) :=
+  match groups with
+  | none => none
+  | some ps =>
+    match ps.find? (fun p => strUnits p.1 == ref) with
+    | some (_, some v) => some v
+    | _ => some []
+
+/-- generic Symbol.replace with a `$` template. -/
+def opR (c : Cx) (k : Nat) (tmpl : List Nat) : String :=
+  let (results, fin) := genResults c k
+  let n := c.units.length
+  let buf := genericReplace c.units (results.map (fun r =>
+    let position := min r.start n
+    let vals := resultArray c.units r
+    (position, r.stop - r.start, substitute c.units position vals (namedLookup (groupsOf vals r.names)) tmpl)))
+  hx buf ++ s!"@{fin}"
 
 def opP (c : Cx) (lim : Option Nat) : String :=
   let l := match lim with | some l => l | none => 4294967295
   "[" ++ joinWith "," ((genericSplit c.f c.units c.fl.unicode l).map hxo) ++ "]@0"
+
+/-! ### fast paths: post-processing of the raw findAll lists -/
+
+def parseRaw (s : String) : List (List Int) :=
+  if s == "-" || s == "" then [] else (s.splitOn "|").map (fun r => (r.splitOn ".").map (fun x => x.toInt?.getD 0))
+
+def plainVals (units : List Nat) (r : List Int) : List (Option (List Nat)) :=
+  some (sub units (r.getD 0 0).toNat (r.getD 1 0).toNat) :: captureValsPlain units (r.drop 2)
+
+def fastM (c : Cx) (raw : List (List Int)) : String :=
+  match fastMatchStrings c.units raw with
+  | none => "n@0"
+  | some l => "g[" ++ joinWith "," (l.map hx) ++ "]@0"
+
+def fastF (c : Cx) (k : Nat) (raw : List (List Int)) (names : Option (List String)) : String :=
+  let buf := fastReplace c.units (fun r => strUnits s!"<{(r.getD 0 0).toNat}>") raw
+  let calls := raw.map (fun r => callRec (plainVals c.units r) (r.getD 0 0).toNat names)
+  hx buf ++ "|" ++ joinWith ">" calls ++ s!"@{fastReplaceLastIndex c.fl raw k}"
+
+/-- `createRegexpGroupsMap` (regexp.go:562) + the named-capture callback of `stringReplace`. -/
+def fastNamed (r : List Int) (names : Option (List String)) (units : List Nat) (ref : List Nat) : Option (List Nat) :=
+  match names with
+  | none => none
+  | some ns =>
+    if ns.isEmpty then none else
+    let entries := (List.range ns.length).filterMap (fun i =>
+      if i == 0 then none else
+      let nm := ns.getD i ""
+      if nm != "" && i * 2 + 1 < r.length then some (nm, i * 2) else none)
+    if entries.isEmpty then none else
+    match entries.find? (fun p => strUnits p.1 == ref) with
+    | some (_, idx) =>
+      if r.getD idx 0 != -1 then some (sub units (r.getD idx 0).toNat (r.getD (idx + 1) 0).toNat) else some []
+    | none => some []
+
+def fastR (c : Cx) (k : Nat) (raw : List (List Int)) (names : Option (List String)) (tmpl : List Nat) : String :=
+  let buf := fastReplace c.units (fun r =>
+    substitute c.units (r.getD 0 0).toNat (plainVals c.units r) (fastNamed r names c.units) tmpl) raw
+  hx buf ++ s!"@{fastReplaceLastIndex c.fl raw k}"
+
+def fastP (c : Cx) (raw : List (List Int)) (lim : Option Nat) : String :=
+  "[" ++ joinWith "," ((fastSplit c.units raw lim).map hxo) ++ "]@0"
 
 def opPred (f : List String) : String :=
   let flags := f.getD 1 "-"
   let units := parseUnits (f.getD 2 "-")
   let starts := natList (f.getD 3 "-")
   let limit := (f.getD 4 "0").toNat?.getD 0
-  let rows := ((f.getD 5 "x").splitOn "|").map parseRow
+  let tmpl := parseUnits (f.getD 5 "-")
+  let rows := ((f.getD 6 "x").splitOn "|").map parseRow
+  let allm := parseRaw (f.getD 7 "-")
+  let alls := parseRaw (f.getD 8 "-")
+  let allr := ((f.getD 9 "").splitOn ";").filterMap (fun e =>
+    match e.splitOn ":" with
+    | [k, l] => some (k.toNat?.getD 0, l)
+    | _ => none)
+  let names := match rows.find? (fun r => r.isSome) with
+    | some (some r) => r.names
+    | _ => none
   let fl : RFlags := { global := flags.contains 'g', sticky := flags.contains 'y', unicode := flags.contains 'u' }
   let c : Cx := { fl := fl, f := fun i => (rows.getD i none), units := units }
   let per := starts.flatMap (fun k => [
@@ -206,8 +276,55 @@ def opPred (f : List String) : String :=
     s!"M{k}=" ++ opM c k,
     s!"A{k}=" ++ opA c k,
     s!"S{k}=" ++ opS c k,
-    s!"F{k}=" ++ opF c k])
-  joinWith ";" (per ++ ["P=" ++ opP c none, s!"PL{limit}=" ++ opP c (some limit)])
+    s!"F{k}=" ++ opF c k,
+    s!"R{k}=" ++ opR c k tmpl])
+  let gen := joinWith ";" (per ++ ["P=" ++ opP c none, s!"PL{limit}=" ++ opP c (some limit)])
+  let fper := starts.flatMap (fun k =>
+    let rawk := match allr.find? (fun p => p.1 == k) with
+      | some (_, l) => if l == "beyond" then [] else parseRaw l
+      | none => []
+    [ s!"M{k}=" ++ (if fl.global then fastM c allm else opM c k),
+      s!"F{k}=" ++ fastF c k rawk names,
+      s!"R{k}=" ++ fastR c k rawk names tmpl ])
+  let fixP := fun (lim : Option Nat) => "[" ++ joinWith "," ((fastSplitFixed c.units alls lim).map hxo) ++ "]@0"
+  let fast := joinWith ";" (fper ++ ["P=" ++ fastP c alls none, s!"PL{limit}=" ++ fastP c alls (some limit),
+    "Pfix=" ++ fixP none, s!"PLfix{limit}=" ++ fixP (some limit)])
+  gen ++ "\t" ++ fast
+
+def fmtList (l : List MatchR) : String :=
+  if l.isEmpty then "-" else joinWith "|" (l.map (fun r => joinWith "." (r.idx.map toString)))
+
+/-- iter <flags> <subject> <start> <limit|-1> <sticky 0|1> <rows>: the "find all" iterations over a finder table:
+coded = regexp2 wrapper loops as coded; ideal = with the protocol's sticky test; go = Go allMatches (limit, then
+goja's sticky prefix filter). -/
+def opIter (f : List String) : String :=
+  let flags := f.getD 1 "-"
+  let units := parseUnits (f.getD 2 "-")
+  let start := (f.getD 3 "0").toNat?.getD 0
+  let limit : Option Nat := match (f.getD 4 "-1").toNat? with | some l => some l | none => none
+  let sticky := f.getD 5 "0" == "1"
+  let rows := ((f.getD 6 "x").splitOn "|").map (fun r => if r == "na" then none else parseRow r)
+  let fl : RFlags := { global := flags.contains 'g', sticky := flags.contains 'y', unicode := flags.contains 'u' }
+  let fn : Finder := fun i => rows.getD i none
+  let go0 := goAll fl fn units
+  let go1 := match limit with | some l => go0.take l | none => go0
+  let go2 := if sticky then stickyPrefix go1 0 else go1
+  s!"coded={fmtList (r2All fl fn units start limit sticky)};ideal={fmtList (idealAll fl fn units start limit sticky)};go={fmtList go2}"
+
+/-- ref <flags> <subject> <ncaps> <wbUnicode> <perlLoops> <ast>: finder table of the reference matcher. -/
+def opRef (f : List String) : String :=
+  let flags := f.getD 1 "-"
+  let units := parseUnits (f.getD 2 "-")
+  let ncaps := (f.getD 3 "0").toNat?.getD 0
+  let o : Ref.Opts := { ignoreCase := flags.contains 'i', multiline := flags.contains 'm', dotAll := flags.contains 's',
+                        unicode := flags.contains 'u', wbUnicode := f.getD 4 "0" == "1", perlLoops := f.getD 5 "0" == "1" }
+  let toks := (f.getD 6 "").splitOn ","
+  let (node, _) := Ref.parseNode 200 toks
+  let rows := Ref.table o ncaps node units
+  joinWith "|" (rows.map (fun r => match r with
+    | none => "x"
+    | some none => "na"
+    | some (some l) => joinWith "." (l.map toString)))
 
 def step (line : String) : String :=
   let f := words line
@@ -217,6 +334,8 @@ def step (line : String) : String :=
   | "flags" => opFlags f
   | "adv" => opAdv f
   | "pred" => opPred f
+  | "iter" => opIter f
+  | "ref" => opRef f
   | _ => "unknown-op"
 
 def main : IO Unit := lineMap step
